@@ -23,7 +23,7 @@ import (
 type C15Rule struct {
 	Name  string `json:"name"`
 	Sal   int64  `json:"sal"`
-	Kind  string `json:"kind"` // writer | reader | cond | sharedw | sharedr
+	Kind  string `json:"kind"` // writer | reader | cond | sharedw | sharedr | wpanic | werror
 	Local string `json:"local"`
 }
 
@@ -52,6 +52,12 @@ func (r C15Rule) text() string {
 		fmt.Fprintf(&b, "  FX(@name)\n  gate(@name)\n  leak(@name, %s)\n  E(@name)\n", x)
 	case "cond":
 		fmt.Fprintf(&b, "  if flags.On {\n    %s = uniq(@name)\n  } else {\n    FX(@name)\n  }\n  gate(@name)\n  chk(@name, %s)\n  E(@name)\n", x, x)
+	case "wpanic":
+		// assigns the local, then fails in a construct that has no recover of its own
+		fmt.Fprintf(&b, "  %s = uniq(@name)\n  FX(@name)\n  if %s {\n    %s = 0\n  }\n  E(@name)\n", x, x, x)
+	case "werror":
+		// assigns the local, then fails with an ordinary error
+		fmt.Fprintf(&b, "  %s = uniq(@name)\n  FX(@name)\n  %s = %s / 0\n  E(@name)\n", x, x, x)
 	case "sharedw":
 		fmt.Fprintf(&b, "  %s = uniq(@name)\n  shared.V = %s\n  wrote(@name, %s)\n  E(@name)\n", x, x, x)
 	case "sharedr":
@@ -69,7 +75,7 @@ func init() {
 		Gen: func(t *rapid.T) interface{} {
 			c := &C15Case{QuiesMs: 2}
 			n := uni(t, "nrules", 2, 7)
-			kinds := []string{"writer", "writer", "writer", "reader", "reader", "cond", "cond", "sharedw", "sharedr"}
+			kinds := []string{"writer", "writer", "writer", "reader", "reader", "reader", "cond", "cond", "sharedw", "sharedr", "wpanic", "wpanic", "werror"}
 			for i := 0; i < n; i++ {
 				c.Rules = append(c.Rules, C15Rule{Name: fmt.Sprintf("r%d", i), Sal: int64(uni(t, fmt.Sprintf("sal%d", i), -2, 4)),
 					Kind: kinds[uni(t, fmt.Sprintf("kind%d", i), 0, len(kinds)-1)], Local: []string{"x", "x", "y"}[uni(t, fmt.Sprintf("local%d", i), 0, 2)]})
@@ -183,7 +189,7 @@ func checkC15(ci interface{}, x *Ctx) {
 		}
 		mrules := make([]models.Rule, len(c.Rules))
 		for i, r := range c.Rules {
-			mrules[i] = models.Rule{Name: r.Name, Sal: r.Sal, Fails: r.Kind == "reader" || (r.Kind == "cond" && !cc.Flag)}
+			mrules[i] = models.Rule{Name: r.Name, Sal: r.Sal, Fails: r.Kind == "reader" || r.Kind == "wpanic" || r.Kind == "werror" || (r.Kind == "cond" && !cc.Flag)}
 		}
 		results := make([]gx.Result, par)
 		var wg sync.WaitGroup
@@ -236,7 +242,7 @@ func checkC15(ci interface{}, x *Ctx) {
 		for _, e := range trace {
 			switch e.Kind {
 			case "U":
-				if byName[e.Name].Kind != "sharedw" {
+				if k := byName[e.Name].Kind; k != "sharedw" && k != "wpanic" && k != "werror" {
 					drawn[e.Name] = append(drawn[e.Name], e.Arg)
 				}
 			case "C":
